@@ -242,6 +242,12 @@ Definition needs_refs (r : refs) (p : path) : bool :=
   || match index_uuid p with Some u => mem_seg u (r_idx r) | None => false end.
 Definition needs (m : manifest) (p : path) : bool := needs_refs (m_refs m) p.
 
+(* what the decision tree can connect p with: as needs_refs, but the `_indices` block of
+   path_if_not_referenced tests a string prefix (so _indicesX/<uuid>/.. counts as well) *)
+Definition touches (r : refs) (p : path) : bool :=
+  needs_refs r p
+  || (starts_with p "_indices" && match nth_error p 1 with Some u => mem_seg u (r_idx r) | None => false end).
+
 (* shape of the relative paths process_manifest produces *)
 Definition under (dir : string) (p : path) : bool :=
   match p with s :: _ :: _ => seg_eqb s (sg dir) | _ => false end.
@@ -330,9 +336,15 @@ Definition auto_cleanup_hook (cfg : auto_cfg) (version : N) (now : N) (versions 
 (* ------------------------------------------------------------------------------------------ *)
 (* A writer (append, delete, update, compaction, index creation, overwrite): puts its new files one
    store call at a time, then publishes a manifest of version latest+1 whose references are a
-   subset (w_keep) of the references of the version that is latest at that moment, plus its own
-   (w_own).  A writer that is not scheduled again has failed / crashed. *)
-Record writer := { w_puts : list file; w_keep : refs -> refs; w_own : refs; w_mpath : path; w_ts : N; w_msize : N }.
+   subset (w_keep / w_keep_idx) of the references of the version that is latest at that moment, plus
+   its own (w_own).  A writer that is not scheduled again has failed / crashed.
+   Manifest files are identified by their version (ManifestNamingScheme::manifest_path is a function
+   of the version): deleting an old manifest is `ECDeleteManifest v`. *)
+Record writer := { w_puts : list file; w_keep : path -> bool; w_keep_idx : seg -> bool; w_own : refs;
+                   w_mpath : path; w_ts : N; w_msize : N }.
+
+Definition keep_refs (k : path -> bool) (ki : seg -> bool) (r : refs) : refs :=
+  {| r_data := filter k (r_data r); r_del := filter k (r_del r); r_tx := filter k (r_tx r); r_idx := filter ki (r_idx r) |}.
 
 Record wstate := { ws_todo : list file; ws_committed : option manifest }.
 
@@ -344,14 +356,16 @@ Inductive cphase :=
 Record world := { wd_files : list file;            (* objects below the base, manifests excluded *)
                   wd_manifests : list manifest;    (* published manifests *)
                   wd_phase : cphase;
-                  wd_pending : list path;          (* decided, not yet deleted (remove_stream) *)
-                  wd_removed : list path;          (* deleted by cleanup so far *)
+                  wd_pending : list path;          (* objects decided, not yet deleted (remove_stream) *)
+                  wd_pending_m : list N;           (* versions of the old manifests not yet deleted *)
+                  wd_removed : list path;          (* objects deleted by cleanup so far *)
                   wd_writers : N -> wstate }.
 
 Inductive event :=
 | ECInspect                                (* list_manifest_locations + read every manifest *)
 | ECSee (p : path)                         (* the listing yields object p; decide *)
-| ECDelete (p : path)                      (* remove_stream deletes p *)
+| ECDelete (p : path)                      (* remove_stream deletes object p *)
+| ECDeleteManifest (v : N)                 (* remove_stream deletes the manifest of version v *)
 | EW (t : N).                              (* the next store call of writer t *)
 
 Definition latest_version (ms : list manifest) : N := fold_right N.max 0 (map m_version ms).
@@ -379,9 +393,11 @@ Section Interleaving.
             let insp := process_manifests dsv tags pol (wd_manifests w) in
             if error_if_tagged_old_versions pol && negb (match i_tagged_old insp with [] => true | _ => false end)
             then {| wd_files := wd_files w; wd_manifests := wd_manifests w; wd_phase := CFailed;
-                    wd_pending := wd_pending w; wd_removed := wd_removed w; wd_writers := wd_writers w |}
+                    wd_pending := wd_pending w; wd_pending_m := wd_pending_m w;
+                    wd_removed := wd_removed w; wd_writers := wd_writers w |}
             else {| wd_files := wd_files w; wd_manifests := wd_manifests w; wd_phase := CInspected insp;
-                    wd_pending := map m_path (i_old insp); wd_removed := wd_removed w; wd_writers := wd_writers w |}
+                    wd_pending := wd_pending w; wd_pending_m := map m_version (i_old insp);
+                    wd_removed := wd_removed w; wd_writers := wd_writers w |}
         | _ => w
         end
     | ECSee p =>
@@ -389,17 +405,28 @@ Section Interleaving.
         | CInspected insp, Some f =>
             if removes pol now insp f
             then {| wd_files := wd_files w; wd_manifests := wd_manifests w; wd_phase := wd_phase w;
-                    wd_pending := p :: wd_pending w; wd_removed := wd_removed w; wd_writers := wd_writers w |}
+                    wd_pending := p :: wd_pending w; wd_pending_m := wd_pending_m w;
+                    wd_removed := wd_removed w; wd_writers := wd_writers w |}
             else w
         | _, _ => w
         end
     | ECDelete p =>
         if mem_path p (wd_pending w)
         then {| wd_files := filter (fun f => negb (path_eqb p (f_path f))) (wd_files w);
-                wd_manifests := filter (fun m => negb (path_eqb p (m_path m))) (wd_manifests w);
+                wd_manifests := wd_manifests w;
                 wd_phase := wd_phase w;
                 wd_pending := filter (fun q => negb (path_eqb p q)) (wd_pending w);
+                wd_pending_m := wd_pending_m w;
                 wd_removed := p :: wd_removed w; wd_writers := wd_writers w |}
+        else w
+    | ECDeleteManifest v =>
+        if mem_N v (wd_pending_m w)
+        then {| wd_files := wd_files w;
+                wd_manifests := filter (fun m => negb (m_version m =? v)) (wd_manifests w);
+                wd_phase := wd_phase w;
+                wd_pending := wd_pending w;
+                wd_pending_m := filter (fun x => negb (x =? v)) (wd_pending_m w);
+                wd_removed := wd_removed w; wd_writers := wd_writers w |}
         else w
     | EW t =>
         let s := wd_writers w t in
@@ -407,14 +434,15 @@ Section Interleaving.
         | Some _, _ => w
         | None, f :: rest =>
             {| wd_files := f :: wd_files w; wd_manifests := wd_manifests w; wd_phase := wd_phase w;
-               wd_pending := wd_pending w; wd_removed := wd_removed w;
+               wd_pending := wd_pending w; wd_pending_m := wd_pending_m w; wd_removed := wd_removed w;
                wd_writers := set_writer (wd_writers w) t {| ws_todo := rest; ws_committed := None |} |}
         | None, [] =>
-            let m := {| m_path := w_mpath (writers t); m_version := latest_version (wd_manifests w) + 1;
-                        m_ts := w_ts (writers t); m_size := w_msize (writers t);
-                        m_refs := refs_add (w_keep (writers t) (latest_refs (wd_manifests w))) (w_own (writers t)) |} in
+            let wr := writers t in
+            let m := {| m_path := w_mpath wr; m_version := latest_version (wd_manifests w) + 1;
+                        m_ts := w_ts wr; m_size := w_msize wr;
+                        m_refs := refs_add (keep_refs (w_keep wr) (w_keep_idx wr) (latest_refs (wd_manifests w))) (w_own wr) |} in
             {| wd_files := wd_files w; wd_manifests := m :: wd_manifests w; wd_phase := wd_phase w;
-               wd_pending := wd_pending w; wd_removed := wd_removed w;
+               wd_pending := wd_pending w; wd_pending_m := wd_pending_m w; wd_removed := wd_removed w;
                wd_writers := set_writer (wd_writers w) t {| ws_todo := []; ws_committed := Some m |} |}
         end
     end.
@@ -422,7 +450,8 @@ Section Interleaving.
   Definition run (evs : list event) (w : world) : world := fold_left step evs w.
 
   Definition init (files : list file) (ms : list manifest) : world :=
-    {| wd_files := files; wd_manifests := ms; wd_phase := CStart; wd_pending := []; wd_removed := [];
+    {| wd_files := files; wd_manifests := ms; wd_phase := CStart; wd_pending := []; wd_pending_m := [];
+       wd_removed := [];
        wd_writers := fun t => {| ws_todo := w_puts (writers t); ws_committed := None |} |}.
 End Interleaving.
 
